@@ -95,6 +95,54 @@ impl ArTag11 {
     }
 }
 
+/// Constructor argument order: `new()` takes the streams, then the remaining fields IN DECLARATION
+/// ORDER (an `into` field declared before a plain one stays before it).
+#[derive(rustradio::rustradio_macros::Block)]
+#[rustradio(new, sync)]
+pub struct ArInto {
+    #[rustradio(in)]
+    a: ReadStream<u32>,
+    #[rustradio(out)]
+    x: WriteStream<u32>,
+    #[rustradio(into)]
+    gain: u64,
+    offset: u32,
+    #[rustradio(default)]
+    seen: u32,
+    #[rustradio(into)]
+    shift: u64,
+}
+impl ArInto {
+    fn process_sync(&mut self, a: u32) -> u32 {
+        self.seen = self.seen.wrapping_add(1);
+        ((a as u64 * self.gain + self.offset as u64) >> self.shift) as u32
+    }
+}
+
+pub fn ctor_probes() -> Vec<String> {
+    let r = quiet(|| -> Result<(), String> {
+        let (mut f, r) = feeder::<u32>(0);
+        // gain 10, offset 1, shift 0: f(3) = 31. Any permutation of the three gives another value.
+        let (mut b, o) = ArInto::new(r, 10u32, 1u32, 0u8);
+        f.push(&[3, 5], &[]);
+        b.work().map_err(|e| e.to_string())?;
+        let (rb, _) = o.read_buf().map_err(|e| e.to_string())?;
+        let got: Vec<u32> = rb.slice().to_vec();
+        if got != vec![31, 51] {
+            return Err(format!("new(src, gain=10, offset=1, shift=0) computes {got:?} for [3, 5], expected [31, 51]"));
+        }
+        Ok(())
+    });
+    vec![format!(
+        "!ctor into-field-before-plain-field\t{}",
+        match r {
+            Ok(Ok(())) => "pass".to_string(),
+            Ok(Err(e)) => format!("FAIL {e}"),
+            Err(p) => format!("FAIL panic: {p}"),
+        }
+    )]
+}
+
 // ---------------------------------------------------------------- catalogue
 
 /// In self-check mode inputs that make integer arithmetic overflow are left to the probe below.
@@ -675,6 +723,48 @@ fn arity_rig(rng: &mut Rng, nin: usize, nout: usize) -> Rig {
     Rig { block, ins: fs, outs: outs.into_iter().map(|o| drainer(o) as Box<dyn OutPort>).collect() }
 }
 
+/// Exact-fit probes (C09): when what a block has to emit fits the free output space exactly, it
+/// must emit it; answering "wait for the output" (for an amount that is already free) is an idle wait.
+pub fn fit_probes() -> Vec<String> {
+    let mut out = vec![];
+    for n in [1usize, 7, 100, 2048] {
+        let r = quiet(|| -> Result<(), String> {
+            rustradio::verif::set_stream_size(4096);
+            let (mut fi, r) = pkt_feeder::<u8>();
+            let (mut b, o) = VecToStream::new(r);
+            let cap = 4096usize;
+            fi.push(&vec![1u64; cap - n], &[]);
+            for _ in 0..3 {
+                let _ = b.work().map_err(|e| e.to_string())?;
+            }
+            let have = o.read_buf().map_err(|e| e.to_string())?.0.len();
+            if have != cap - n {
+                return Err(format!("set-up: {have} samples in the output, expected {}", cap - n));
+            }
+            fi.push(&vec![2u64; n], &[]);
+            let mut verdicts = vec![];
+            for _ in 0..3 {
+                let ret = b.work().map_err(|e| e.to_string())?;
+                verdicts.push(format!("{ret:?}"));
+            }
+            let have = o.read_buf().map_err(|e| e.to_string())?.0.len();
+            if have != cap {
+                return Err(format!("a {n}-sample packet with exactly {n} free output samples was not emitted (verdicts {verdicts:?})"));
+            }
+            Ok(())
+        });
+        out.push(format!(
+            "!c09 v2s exact-fit packet={n}\t{}",
+            match r {
+                Ok(Ok(())) => "pass".to_string(),
+                Ok(Err(e)) => format!("FAIL {e}"),
+                Err(p) => format!("FAIL panic: {p}"),
+            }
+        ));
+    }
+    out
+}
+
 /// `eof()` of derive-generated blocks: true iff EVERY input has ended (writer gone) and is drained.
 /// All combinations of (writer dropped?, a sample still queued?) per input, arities 1..3 x 1..3,
 /// sync_tag blocks and library blocks with two inputs.
@@ -778,7 +868,11 @@ pub fn run(args: &[String]) -> Vec<String> {
     let mut rng = Rng::new(seed);
     // every stream a block creates for its outputs is one page
     rustradio::verif::set_stream_size(4096);
+    if arg_usize(args, "--fit-probes", 0) != 0 {
+        out.extend(fit_probes());
+    }
     if arg_usize(args, "--eof-probes", 0) != 0 {
+        out.extend(ctor_probes());
         let mut r = rng.fork();
         out.extend(eof_probes(&mut r));
     }
